@@ -1,7 +1,9 @@
 (* C15 — loading a workflow is deterministic and prunes disabled roles.
    Property theorems only; each closed by [exact] of a lemma from proofs/Load_proofs.v.
    [load c r] = ProcessTemplates of the root template r under the environment maps c, as coded
-   ([proc coded]); [proc ideal] = the reference reading of the property text used by the monitor.
+   ([proc coded], after the repairs of C15-a, C15-b, C15-d); [proc legacy] = the loader before
+   those repairs, kept to show that each repaired clause was violated (the monitor recognises a
+   regression of a repair by the legacy switch that reproduces the deviation).
    Schedules: [run coded s w] lets the goroutines of the work tree w act in the order s. *)
 From Verif Require Import Common Gen_LoadStages Load Load_proofs.
 Open Scope N_scope.
@@ -61,30 +63,34 @@ Theorem C15_children_in_order : forall b kids c loc s i t,
   exists ns, Forall2 (fun kid n => proc coded kid (child_ctx c i) [] = Ok n) kids ns /\
              (t = ONode KAgg i (r_crit b) (filter (node_enabled coded) ns) \/
               (agg_empty coded (filter (node_enabled coded) ns) = true /\
-               t = ONode KAgg (set_enabled i s_false) (r_crit b) [])).
+               t = ONode KAgg (set_enabled i s_false) (r_crit b) (filter (node_enabled coded) ns))).
 Proof. exact (agg_children coded). Qed.
 Print Assumptions C15_children_in_order.
 
 (* --- aggregators left empty disappear --- *)
 
-(* as the code reads "empty": no aggregator with an empty Roles slice below the root *)
+(* as the rest of the core sees it (GetRoles: iterator containers are transparent): no aggregator
+   below the root is left without a visible role — in particular an aggregator whose only
+   children are iterators that expand to nothing disappears (full statement; it was refuted
+   before the repair of C15-d) *)
+Definition C15_no_visibly_empty_statement : Prop := no_visibly_empty_statement.
+Theorem C15_no_visibly_empty : forall c r t i crit ks,
+  load c r = Ok t -> In (ONode KAgg i crit ks) (desc t) -> flat_map visible ks <> [].
+Proof. exact no_visibly_empty_holds. Qed.
+Print Assumptions C15_no_visibly_empty.
+
 Theorem C15_no_bare_aggregator : forall c r t i crit ks,
   load c r = Ok t -> In (ONode KAgg i crit ks) (desc t) -> ks <> [].
 Proof. exact (fun c r t => coded_no_bare_aggregator r c [] t). Qed.
 Print Assumptions C15_no_bare_aggregator.
 
-(* as the rest of the core sees it (GetRoles: iterator containers are transparent): refuted — an
-   aggregator whose only children are iterators that expand to nothing stays (finding C15-d) *)
-Definition C15_no_visibly_empty_statement : Prop := no_visibly_empty_statement.
-Theorem C15_no_visibly_empty_refuted : ~ C15_no_visibly_empty_statement.
-Proof. exact no_visibly_empty_refuted. Qed.
-Print Assumptions C15_no_visibly_empty_refuted.
-
-Theorem C15_no_visibly_empty_partial : forall c r t i crit ks,
-  load c r = Ok t -> In (ONode KAgg i crit ks) (desc t) ->
-  forallb containers_nonempty ks = true -> flat_map visible ks <> [].
-Proof. exact (fun c r t => agg_visibly_nonempty r c [] t). Qed.
-Print Assumptions C15_no_visibly_empty_partial.
+(* the loader before the repair kept such an aggregator; the witness is pruned now *)
+Theorem C15_no_visibly_empty_legacy_refuted :
+  (exists t i crit ks, proc legacy wit_empty ctx0 [] = Ok t /\
+                       In (ONode KAgg i crit ks) (desc t) /\ flat_map visible ks = []) /\
+  (exists t, load ctx0 wit_empty = Ok t /\ length (desc t) = 1%nat).
+Proof. exact (conj legacy_visibly_empty wit_empty_pruned). Qed.
+Print Assumptions C15_no_visibly_empty_legacy_refuted.
 
 (* --- an iterator yields one child per element of its range, in order, variable bound --- *)
 
@@ -175,40 +181,62 @@ Theorem C15_nested_scope_inherited : forall c loc x v b s i,
 Proof. exact scope_inherited. Qed.
 Print Assumptions C15_nested_scope_inherited.
 
-(* an iterator that still has children is kept by its parent: refuted — the parent filters the
-   container on the template's unprocessed `enabled` text (finding C15-b) *)
+(* an iterator is kept by its parent whatever its template's `enabled` text is: the expression
+   is evaluated for each copy (full statement; it was refuted before the repair of C15-b) *)
 Definition C15_iterator_enabled_statement : Prop := iterator_enabled_statement.
-Theorem C15_iterator_enabled_refuted : ~ C15_iterator_enabled_statement.
-Proof. exact iterator_enabled_refuted. Qed.
-Print Assumptions C15_iterator_enabled_refuted.
+Theorem C15_iterator_enabled : forall c fs k b kids n,
+  proc coded (Role (Some fs) k b kids) c [] = Ok n -> onode_kids n <> [] ->
+  node_enabled coded n = true.
+Proof. exact iterator_enabled_holds. Qed.
+Print Assumptions C15_iterator_enabled.
 
-Theorem C15_iterator_enabled_partial : forall fs k b kids c loc n,
-  proc coded (Role (Some fs) k b kids) c loc = Ok n ->
-  literal (r_enabled b) = true -> onode_kids n <> [] -> node_enabled coded n = true.
-Proof. exact iterator_literal_kept. Qed.
-Print Assumptions C15_iterator_enabled_partial.
+Theorem C15_iterator_kept : forall fs k b kids c loc n,
+  proc coded (Role (Some fs) k b kids) c loc = Ok n -> node_enabled coded n = true.
+Proof. exact iterator_kept. Qed.
+Print Assumptions C15_iterator_kept.
+
+(* the loader before the repair dropped an iterator with a non-literal `enabled` together with
+   the copy for which the expression is true; the witness keeps both visible roles now *)
+Theorem C15_iterator_enabled_legacy_refuted :
+  (exists n, proc legacy wit_iter ctx_xa [] = Ok n /\ onode_kids n <> [] /\
+             node_enabled legacy n = false) /\
+  (exists t, load ctx_xa wit_iter_root = Ok t /\
+             length (flat_map visible (onode_kids t)) = 2%nat /\
+             exists t', proc legacy wit_iter_root ctx_xa [] = Ok t' /\
+                        length (flat_map visible (onode_kids t')) = 1%nat).
+Proof. exact (conj legacy_iterator_dropped iterator_enabled_witness). Qed.
+Print Assumptions C15_iterator_enabled_legacy_refuted.
 
 (* --- a template error in any role makes the load fail --- *)
 
 (* [terr true]: some field the loader has to evaluate (a role all of whose ancestors are enabled;
-   every element of an iterator) fails.  Refuted: an error in `enabled` is reported as "role
-   disabled" and the role is dropped (finding C15-a) *)
+   every element of an iterator; `enabled` itself; a range) fails.  Full statement, and exact: the
+   load fails iff there is a live template error (it was refuted before the repair of C15-a: an
+   error in `enabled` was reported as "role disabled" and the role dropped) *)
 Definition C15_error_fails_statement : Prop := error_fails_statement.
-Theorem C15_error_fails_refuted : ~ C15_error_fails_statement.
-Proof. exact error_fails_refuted. Qed.
-Print Assumptions C15_error_fails_refuted.
+Theorem C15_error_fails : forall c r, terr true c [] r -> load c r = Err.
+Proof. exact error_fails_holds. Qed.
+Print Assumptions C15_error_fails.
 
-(* exact: the load fails iff a live field other than `enabled` (or a range) fails *)
-Theorem C15_error_fails_partial : forall c r, load c r = Err <-> terr false c [] r.
+Theorem C15_error_fails_exact : forall c r, load c r = Err <-> terr true c [] r.
 Proof. exact load_fails_iff. Qed.
-Print Assumptions C15_error_fails_partial.
+Print Assumptions C15_error_fails_exact.
 
-(* whatever the schedule: a finished load with a live template error outside `enabled` is a
-   failure (the repaired lost-error race of the iterator / aggregator goroutines) *)
+(* whatever the schedule: a finished load with a live template error is a failure (includes the
+   repaired lost-error race of the iterator / aggregator goroutines) *)
 Theorem C15_error_fails_every_schedule : forall c r s o,
-  terr false c [] r -> run coded s (WTodo c [] r) = WDone o -> o = Err.
+  terr true c [] r -> run coded s (WTodo c [] r) = WDone o -> o = Err.
 Proof. exact error_fails_every_schedule. Qed.
 Print Assumptions C15_error_fails_every_schedule.
+
+(* the loader before the repair loaded a template with a live error in `enabled` (it failed
+   exactly on the errors outside `enabled`); the witness fails now *)
+Theorem C15_error_fails_legacy_refuted :
+  (exists c r, terr true c [] r /\ exists t, proc legacy r c [] = Ok t) /\
+  (forall c r, proc legacy r c [] = Err <-> terr false c [] r) /\
+  load ctx0 wit_masked = Err.
+Proof. exact (conj legacy_error_masked (conj legacy_fails_iff wit_masked_fails)). Qed.
+Print Assumptions C15_error_fails_legacy_refuted.
 
 (* --- tie to the source: the stage in which each field is processed (table regenerated from the
    template.Sequence literals of /repo on every run) is the one the model implements --- *)
@@ -218,39 +246,23 @@ Theorem C15_source_stages :
 Proof. exact stages_as_modelled. Qed.
 Print Assumptions C15_source_stages.
 
-(* --- the reference the monitor compares with meets the strict readings --- *)
-
-Theorem C15_reference_error_fails : forall c r, proc ideal r c [] = Err <-> terr true c [] r.
-Proof. exact ideal_fails_iff. Qed.
-Print Assumptions C15_reference_error_fails.
-
-Theorem C15_reference_no_visibly_empty : forall c r t i crit ks,
-  proc ideal r c [] = Ok t -> In (ONode KAgg i crit ks) (desc t) -> flat_map visible ks <> [].
-Proof. exact (fun c r t => reference_no_visibly_empty r c [] t). Qed.
-Print Assumptions C15_reference_no_visibly_empty.
-
-Theorem C15_reference_schedule_independent : forall c r s o,
-  run ideal s (WTodo c [] r) = WDone o -> o = proc ideal r c [].
-Proof. exact (fun c r s o => schedule_independent ideal c [] r s o). Qed.
-Print Assumptions C15_reference_schedule_independent.
-
 (* non-vacuity: a template with a nested iterator over two elements, a role disabled by a
    variable of the environment and a variable defined at the root; it loads to a tree with six
    visible roles below the root, under a left-to-right and under a right-to-left schedule; the
-   witnesses of the three refuted clauses load successfully; an iterator nested in an iterator
+   witness of the formerly masked `enabled` error fails to load (and loaded before the repair); an iterator nested in an iterator
    with a range that counts up to the outer iteration variable *)
 Example C15_nonvacuous :
   (exists t, load ctx_xa ex_role = Ok t /\ length (desc t) = 6%nat /\
              run coded ex_sched_lr (WTodo ctx_xa [] ex_role) = WDone (Ok t) /\
              run coded ex_sched_rl (WTodo ctx_xa [] ex_role) = WDone (Ok t)) /\
-  terr true ctx0 [] wit_masked /\
-  (exists t, load ctx0 wit_masked = Ok t /\ length (flat_map visible (onode_kids t)) = 1%nat) /\
+  terr true ctx0 [] wit_masked /\ load ctx0 wit_masked = Err /\
+  (exists t, proc legacy wit_masked ctx0 [] = Ok t /\ length (flat_map visible (onode_kids t)) = 1%nat) /\
   (* host{{it}} for it in 1..3 [ worker{{jt}} for jt in 1..{{it}} ]: the three copies hold 1, 2
      and 3 workers *)
   (exists t, load ctx0 ex_nested = Ok t /\ profile t = [3; 1; 2; 3] /\
              length (flat_map visible (onode_kids t)) = 3%nat /\ length (flat t) = 1%nat /\
              vis_count t = 10%nat).
 Proof.
-  split; [|split; [exact wit_masked_terr|split; [exact wit_masked_loads|exact ex_nested_loads]]].
+  split; [|split; [exact wit_masked_terr|split; [exact wit_masked_fails|split; [exact wit_masked_legacy_loads|exact ex_nested_loads]]]].
   vm_compute. eexists. repeat split; reflexivity.
 Qed.
